@@ -4158,7 +4158,8 @@ func groupHeaderOrderRule(c *Ctx, r *Result, rule string) {
 		}
 	}
 	if n < 1 {
-		r.Shortfall(c, rule, rule+": no object header literal with a group-defining and a dataspace message found")
+		// built another way (append, a loop): the order is then not decided here
+		r.Undec(rule, "module#group-message-before-dataspace", "", "no object header literal that carries both a group-defining and a dataspace message")
 	}
 }
 
